@@ -40,6 +40,33 @@ impl<S> fmt::Debug for DecodeErrorKind<S> {
 '''
 open(p, "w").write(s)
 EOF
+    # Captured::from_values: under cfg(kani) the encoder writes into a Vec<u8>
+    # (then Bytes::from) instead of a BytesMut, whose reference-counted,
+    # pointer-tagged growth path stalls symbolic execution.  Same bytes.
+    python3 - "$DST/src/captured.rs" <<'PYEOF'
+import sys
+p = sys.argv[1]
+s = open(p).read()
+old = """        let mut builder = Self::builder(mode);
+        builder.extend(values);
+        builder.freeze()
+"""
+assert s.count(old) == 1, "bcder source layout changed"
+new = """        #[cfg(kani)]
+        {
+            let mut v: Vec<u8> = Vec::with_capacity(64);
+            values.write_encoded(mode, &mut v).unwrap();
+            return Captured::new(Bytes::from(v), mode, Pos::default());
+        }
+        #[cfg(not(kani))]
+        {
+        let mut builder = Self::builder(mode);
+        builder.extend(values);
+        builder.freeze()
+        }
+"""
+open(p, "w").write(s.replace(old, new))
+PYEOF
     touch "$DST/.shim-ok"
 fi
 
